@@ -623,6 +623,13 @@ func (w *World) opDelete(op Op) *Resp {
 // What only d kept reachable - children that were moved to the child list, referrers - is in the same position as
 // after a delete of d (same known families).
 func (w *World) orphanDependants(mr *MRepo, d string) {
+	for _, td := range mr.tags {
+		if td == d {
+			// the content of a tagged manifest was removed behind the tag: whether and when the tag goes (the next collection
+			// prunes entries without content) is not something any property states; nothing more is claimed about this repository
+			w.tainted[mr.name] = true
+		}
+	}
 	if x, ok := mr.mans[d]; ok {
 		for _, c := range x.view.children {
 			if _, ok := mr.mans[c]; ok {
